@@ -90,12 +90,81 @@ def m3_molecule_accessors(S):
     """every generated accessor of every dynamic schema type on every byte slice accepted by compatible decoding: no panic,
     result inside the input, nested readers cover ranges verified as well-formed"""
     from obligations import molecule_m as MM
+    MM.set_tier(S)
     ob = "C16.m3"
     for t in MM.dynamic_types():
         MM.access(S, ob, t)
 
 
-OBLIGATIONS = [m1_extension_accessors, m2_frame_guard, m3_molecule_accessors]
+def m4_discovery_decode_uses_verified_readers(S):
+    """hand-written decoding of discovery messages: every molecule accessor is applied to a reader that came out of a successful
+    `from_compatible_slice`/`from_slice` (directly or as a sub-reader); only then do the accessor guarantees of m3 apply"""
+    ob = "C16.m4"
+    ctx = S.ctx(unwind=3)
+    ctx.uninterpreted_unknown_calls = True
+    bad = []
+
+    def tag(ex, v):
+        v = deref(ex, v)
+        n = getattr(v, "name", "")
+        return n[:2] if n[:2] in ("V:", "U:") else "?:"
+
+    def verified_ctor(ex, callee, args, dty):
+        ok = ex.ctx.bool(f"decode_ok_{len(ex.log)}_{len(ex.choices)}")
+        ex.log.append(("decode", callee, [], list(ex.pc)))
+        inner = dty[dty.index("<") + 1:].split(",")[0] if "<" in dty else "Reader"
+        return mk_result(ok.t, OpaqueV("V:" + inner.strip() + f"#{len(ex.log)}", inner.strip()), OpaqueV("verr", "VerificationError"), dty)
+
+    def unchecked_ctor(ex, callee, args, dty):
+        return OpaqueV(f"U:{dty}#{len(ex.log)}", dty)
+
+    def accessor(ex, callee, args, dty):
+        t0 = tag(ex, args[0]) if args else "?:"
+        if t0 == "U:":
+            bad.append((callee, T.and_(*ex.pc)))
+        ex.log.append(("acc", callee, [t0], list(ex.pc)))
+        if dty in ("()", "!", ""):
+            return UNIT
+        it = None
+        try:
+            from mir2smt.exec import int_type
+            it = int_type(dty)
+        except Exception:
+            it = None
+        if dty == "bool" or it is not None or dty.startswith("&[") or dty.startswith("["):
+            return ex.ctx.fresh_of_type(f"acc{len(ex.log)}_{len(ex.choices)}", dty)
+        if dty.startswith("std::option::Option<") or dty.startswith("Option<"):
+            inner = dty[dty.index("<") + 1:-1]
+            return mk_option(ex.ctx.bool(f"opt{len(ex.log)}_{len(ex.choices)}").t, OpaqueV(t0 + inner + f"#{len(ex.log)}", inner), dty)
+        return OpaqueV((t0 if t0 != "?:" else "V:") + dty + f"#{len(ex.log)}", dty)
+
+    def it_next(ex, callee, args, dty):
+        it = deref(ex, args[0])
+        key = getattr(it, "name", "?")
+        n = len([e for e in ex.log if e[0] == "next" and e[2][0] == key])
+        ex.log.append(("next", callee, [key], list(ex.pc)))
+        inner = dty[dty.index("<") + 1:-1] if "<" in dty else "Item"
+        return mk_option(True, OpaqueV(key[:2] + inner + f"#{len(ex.log)}", inner), dty) if n == 0 else mk_option(False, None, dty)
+
+    ctx.env = [
+        (E.rx(r"::from_compatible_slice$|Reader<'_>>?::from_slice$|Entity>::from_slice$"), verified_ctor),
+        (E.rx(r"::new_unchecked$"), unchecked_ctor),
+        (E.rx(r"ReaderIterator<'_, '_> as Iterator>::next$"), it_next),
+        (E.rx(r"^\w+Reader::<'_>::\w+$|^\w+::as_reader$|Reader<'_> as .*Reader<'_>>::as_slice$|Reader<'_> as Into<\w+>>::into$|ReaderIterator<'_, '_> as IntoIterator>::into_iter$"), accessor),
+        (E.rx(r"Multiaddr as TryFrom"), lambda ex, c, a, d: mk_result(ex.ctx.bool(f"addr_ok_{len(ex.log)}_{len(ex.choices)}").t, OpaqueV("addr", "Multiaddr"), OpaqueV("aerr", "Error"), d)),
+        (E.rx(r"copy_from_slice$|to_vec$|from_bits_truncate$|from_bits_retain$|Vec::<.*>::(with_capacity|push)$|as Into<.*>>::into$"), E.opaque_call()),
+    ]
+    fn = S.fn("DiscoveryMessage::decode")
+    from mir2smt.exec import SliceV
+    L = ctx.int("len", "usize")
+    ps = S.run(ctx, fn, [SliceV("data", 0, L.t)], allow=("return", "panic", "unwind"))
+    n_acc = sum(1 for p in ps for e in p.log if e[0] == "acc")
+    S.prove(ctx, ob, "every_accessor_runs_on_a_verified_reader", [], T.not_(T.or_(*[c for _, c in bad])) if bad else True,
+            extra={"unverified_accessor_calls": [c for c, _ in bad][:5]})
+    S.prove(ctx, ob, "accessor_calls_observed", [], bool(n_acc >= 10))
+
+
+OBLIGATIONS = [m1_extension_accessors, m2_frame_guard, m3_molecule_accessors, m4_discovery_decode_uses_verified_readers]
 
 _P = os.path.join(os.path.dirname(__file__), "..", "kani", "molecule", "gen_molecule.json")
 _OKFILE = os.path.join(os.path.dirname(__file__), "..", "kani", "molecule", "feasible.json")
